@@ -271,6 +271,24 @@ theorem c20_child_differs_only_in_authorised (env : Env ν) (st : Store ν) (hw 
       unfold Authorised at this ⊢
       rwa [hba, hbc] at this
 
+/-- **Replicating an unauthorised genome yields an identical configuration.**  With mutations disabled and a
+    callback that never approves, whatever mutations `replicate` is asked for (and whatever the random pass
+    draws) the child's gene table is the parent's, so child and parent have the same hash; the child is again
+    unauthorised, so `c20_unauthorised_history_changes_nothing` applies to it from then on. -/
+theorem c20_unauthorised_child_equals_parent (env : Env ν) (st : Store ν) (hw : WF st) (i : Nat)
+    (muts : List (Nat × ν)) (inh : Bool) (p : Genome ν) (hi : st.genomes[i]? = some p) (hal : p.allow = false)
+    (hna : NeverApproves env p) (id : Nat) (hret : (step env st (.replicate i muts inh)).2 = .child id) :
+    ∃ c, (step env st (.replicate i muts inh)).1.genomes[id]? = some c ∧ c.genes = p.genes ∧
+      canon c = canon p ∧ c.allow = false ∧ NeverApproves env c := by
+  have hwp : WFG p := hw p (List.mem_of_getElem? hi)
+  cases hr : replicate env st.calls st.draws p muts inh with
+  | raised k d => rw [step_replicate_raised hi hr] at hret; cases hret
+  | ok c k d =>
+    rw [step_replicate_ok hi hr] at hret ⊢
+    cases hret
+    obtain ⟨h1, h2, h3⟩ := replicate_unauthorised hwp hal hna hr
+    exact ⟨c, by simp, h1, by simp [canon, table, h1], h2, fun c' hc' => hna c' (h3 ▸ hc')⟩
+
 /-- **Refused replication mutations are logged as unapproved in the child**: every requested mutation that
     names a gene of the parent produces an entry in the child's log, and that entry is approved only if the
     gate let it through.  Conversely the child's log contains nothing but those entries and (when the
@@ -504,6 +522,14 @@ theorem c20_hash_eq_iff {η : Type} (H : List (Nat × ν) → η) (hinj : ∀ a 
     hash H g₁ = hash H g₂ ↔ canon g₁ = canon g₂ :=
   ⟨fun h => hinj _ _ h, fun h => by simp [hash, h]⟩
 
+/-- The canonical list — hence, with `c20_hash_eq_iff`, the hash — identifies exactly the stored name → value
+    map, whatever the insertion order: two genomes have equal canonical lists iff `get_gene` shows the same value
+    (or no gene) under every name.  So "the hash is unchanged" and "no stored value changed, none appeared, none
+    disappeared" are the same statement. -/
+theorem c20_canon_eq_iff_same_stored_values (g₁ g₂ : Genome ν) (hw₁ : WFG g₁) (hw₂ : WFG g₂) :
+    canon g₁ = canon g₂ ↔ ∀ n, valueOf g₁ n = valueOf g₂ n :=
+  canon_eq_iff hw₁ hw₂
+
 /-- Outside the property as read in DESIGN.md ("re-adding"), stated so that it is not overlooked: with mutations
     disabled `add_gene` of a NEW name is accepted, appends the gene (changing the hash) and leaves every
     existing gene alone. -/
@@ -601,6 +627,17 @@ example :
       [⟨0, 1, .structural, true, .normal⟩, ⟨1, 2, .conditional, false, .high⟩, ⟨2, 3, .dormant, false, .normal⟩,
        ⟨3, 4, .regulatory, false, .silenced⟩, ⟨4, 5, .conditional, false, .low⟩]
     express g [4] = [(0, 1), (4, 5)] ∧ express g [] = [(0, 1)] := by decide
+
+/-- `c20_canon_eq_iff_same_stored_values`: same map, different insertion order, same canonical list -/
+example : canon (newGenome false none false [gene0, gene1]) = canon (newGenome false none false [gene1, gene0]) ∧
+    table (newGenome false none false [gene0, gene1]) ≠ table (newGenome false none false [gene1, gene0]) := by
+  decide
+
+/-- `c20_unauthorised_child_equals_parent`: hypotheses hold for the example parent under the never-approving
+    callback, with requested mutations on both genes -/
+example : parent.allow = false ∧ NeverApproves envNo parent ∧
+    (step envNo st0 (.replicate 0 [(0, 7), (1, 5)] false)).2 = .child 1 :=
+  ⟨rfl, fun _ _ _ _ _ _ _ => by simp [envNo], by decide⟩
 
 /-- `c20_fresh_add_extends_table`: a NEW name is accepted on an immutable genome -/
 example : (addGene parent ⟨5, 0, .structural, false, .normal⟩).2 = true := by decide
